@@ -104,12 +104,12 @@ func (e *wireEngine) record(raw []byte, r *wRec) {
 					return
 				}
 				cuts := interestingCuts(n, cc.ends, rng, 2)
-				for k := 0; k < 6 && len(cuts) > 0; k++ {
+				for k := 0; k < 4 && len(cuts) > 0; k++ {
 					if !yield(partition{cutsToChunks(n, cuts[rng.Intn(len(cuts))]), "one-cut"}) {
 						return
 					}
 				}
-				for _, k := range []int{7, 4095, 4096, 4097, 12288} {
+				for _, k := range []int{4095, 4097, 12288} {
 					if k < n && !yield(partition{fixedChunks(n, k), fmt.Sprintf("%d-byte reads", k)}) {
 						return
 					}
@@ -125,7 +125,11 @@ func (e *wireEngine) record(raw []byte, r *wRec) {
 		}
 		plan(func(p partition) bool {
 			idx++
-			for _, mo := range opts {
+			popts := opts
+			if e.light && len(opts) > 1 { // long streams: alternate between the option value 0 (default) and the explicit 4 MiB
+				popts = opts[idx%len(opts):][:1]
+			}
+			for _, mo := range popts {
 				variants := []runCfg{{chunks: p.chunks, fin: r.Fin, maxOpt: mo, reuse: idx%2 == 0, desc: p.desc}}
 				if idx%3 == 0 || p.desc == "all-at-once" || p.desc == "byte-at-a-time" {
 					variants = append(variants, runCfg{chunks: p.chunks, fin: r.Fin, finWithData: true, maxOpt: mo, reuse: idx%2 == 1, desc: p.desc + "+err-with-data"})
@@ -359,7 +363,7 @@ func reasmPlan(quick bool) []reasmCfg {
 		{label: "reasm depth<=3 full alphabet Max=2", cfgs: "{<<2,3,1>>}", idRels: idsFull, kindRels: kindsBoth, ctls: "BOOLEAN", pays: paysFull, fins: finsAll, allEvery: 512, pairEvery: 64, nRandom: 2},
 		{label: "reasm depth<=3 Max=1", cfgs: "{<<1,3,1>>}", idRels: idsNoLs, kindRels: kindsBoth, ctls: "BOOLEAN", pays: paysEdge, fins: finsAll, allEvery: 256, pairEvery: 32, nRandom: 2},
 		{label: "reasm depth<=2 wide id alphabet Max in {2,64}", cfgs: "{<<2,2,1>>,<<64,2,1>>}", idRels: idsWide, kindRels: kindsBoth, ctls: "BOOLEAN", pays: "{<<0,0>>,<<0,1>>,<<0,2>>,<<1,-1>>,<<1,0>>,<<1,1>>}", fins: finsAll, allEvery: 8, pairEvery: 4, nRandom: 3},
-		{label: "reasm tails after <=2 frames, reduced alphabet, Max in {1,2,64}", cfgs: "{<<1,2,2>>,<<2,2,2>>,<<64,2,2>>}", idRels: idsUp, kindRels: `{"same"}`, ctls: "{FALSE}", pays: "{<<0,1>>}", fins: finsAll, allEvery: 1, pairEvery: 1, nRandom: 4},
+		{label: "reasm tails after <=2 frames, reduced alphabet, Max in {1,2,64}", cfgs: "{<<1,2,2>>,<<2,2,2>>,<<64,2,2>>}", idRels: idsUp, kindRels: `{"same"}`, ctls: "{FALSE}", pays: "{<<0,1>>}", fins: finsAll, allEvery: 16, pairEvery: 4, nRandom: 3},
 		{label: "reasm depth 3 Max=64", cfgs: "{<<64,3,0>>}", idRels: idsNoLs, kindRels: kindsBoth, ctls: "BOOLEAN", pays: paysEdge, fins: finsAll, allEvery: 16, pairEvery: 32, nRandom: 2},
 		{label: "reasm depth 4 reduced alphabet Max=2", cfgs: "{<<2,4,0>>}", idRels: idsUp, kindRels: kindsBoth, ctls: "BOOLEAN", pays: "{<<0,1>>}", fins: `{"ioerr"}`, allEvery: 2048, pairEvery: 64, nRandom: 2},
 		{label: "reasm depth<=3 Max in {4067,4068,4069}", cfgs: "{<<4067,3,1>>,<<4068,3,0>>,<<4069,3,0>>}", idRels: idsNoLs, kindRels: kindsBoth, ctls: "{FALSE}", pays: paysEdge, fins: finsAll, allEvery: 1, pairEvery: 32, nRandom: 2},
@@ -379,6 +383,7 @@ func burstCases(quick bool) string {
 
 // C09 — packet reassembly depends only on the byte stream and is memory-bounded.
 func C09(c *vf.Ctx) {
+	defer relaxGC()()
 	c.Assume = append(c.Assume,
 		"the reference reassembly is the one transcribed in spec/Wire.tla from drpcwire/reader.go's documentation and the README (watermark (1,1), message+1 after a done frame, discard on higher id, kind constant, control OR, data > Max rejected)",
 		"an incomplete frame is rejected for its size once more than Max+31 pending bytes of it are buffered and never while at most Max+28 are; the band in between is not enumerated (28 is the reader's documented frame overhead, 31 the real maximum header size)",
